@@ -484,7 +484,7 @@ class MLIRLexer(Lexer[MLIRTokenKind]):
 
     # Match a double-quoted string literal, allowing valid escape sequences (\n, \t, \\, \", and two hex digits).
     _unescaped_characters_regex = re.compile(
-        r'"(?:[^"\\\n\v\f]+|\\(?:["nt\\]|[0-9A-Fa-f]{2}))*"'
+        r'"[^"\\\n\v\f]*(?:\\(?:["nt\\]|[0-9A-Fa-f]{2})[^"\\\n\v\f]*)*"'
     )
 
     def _lex_string_literal(self, start_pos: Position) -> MLIRToken:
